@@ -10,7 +10,7 @@ EXTRA_VO = ["Model/C17Run.vo"]
 PROFILES = ["release"]
 RULE = ("harness c17: one record = a HISTORY applied to one operand (fresh view / set_size below capacity / reallocate_limbs / "
         "write_to+read_from with spare writer capacity / header-corrupted stream / grown to max_size / carved out of an unaligned "
-        "scratch window by take_* / view at an 8-byte shifted address / from_data on a short buffer) followed by ONE observed "
+        "scratch window by take_* / view at an 8-byte shifted address / from_data on a short buffer / set_size beyond capacity) followed by ONE observed "
         "operation of the HAL families (vec_znx ring ops, normalise/shift, big ops, dft/idft incl. the in-place consume, svp, vmp) "
         "on 4 backends, n from 1 where the family admits it, 1..3 columns, sizes 1,2,3,5, exact-size scratch window; every operand "
         "and the scratch live in one allocation between guard zones, run twice from two garbage fills; outputs = "
@@ -32,10 +32,11 @@ TRUSTED = [
     "guard zones of 4096 bytes around every operand: an out-of-bounds access further away than that is not seen by the canaries",
 ]
 
-ZONE_KEY = {17001: "fft64avx.dft_small_n.no_tail", 17002: "fft64.vmp.n_lt_8.noop", 17003: "ntt120.vmp.n1.noop",
-            17004: "ring_degree_mismatch.unchecked"}
-HIST_KEY = {3: "read_from.max_size_unchecked", 4: "read_from.max_size_unchecked", 5: "read_from.max_size_unchecked",
-            6: "read_from.max_size_unchecked", 9: "from_data.unchecked"}
+# zone 17001 (FFT64Avx DFT-domain kernels at n < 8) is retired: repaired by fd67345, those shapes are in the main stream now
+ZONE_KEY = {17002: "fft64.vmp.n_lt_8.noop", 17003: "ntt120.vmp.n1.noop", 17004: "ring_degree_mismatch.unchecked"}
+# history 9 = from_data on a short buffer; VecZnx / ScalarZnx validate since 2067fe8 (a panic is then the expected outcome),
+# the prepared / big layouts still do not.  Histories 3..6 (read_from) are repaired by 206cd69: no known class any more.
+HIST_KEY = {9: "from_data.unchecked.prepared_layouts"}
 
 
 def _parse(record):
@@ -62,8 +63,6 @@ def classify(record):
         return HIST_KEY.get(hist)
     if code == 17000 and o and o[0] and o[0][0] == 3 and o[0][1] == 1 and o[0][2] == 0:
         # the safe-API history produced an object that violates Inv; nothing was run
-        if hist in (5, 6) and ps[5] != 3:
-            return None                       # only the max_size field is known to be committed unchecked
         return HIST_KEY.get(hist)
     return None
 
@@ -133,7 +132,7 @@ def _hazard(ctx, ofails, notes):
             if out[0][0] == 0 and out[0][3] == 0: d["digest"] += 1
             if out[0][2] != 0: d["hook"] += 1
             ofails.append({"profile": "release", "record": l})
-    names = {17001: "FFT64Avx dft ops n<8", 17002: "FFT64 vmp n<8", 17003: "NTT120 vmp n=1", 17004: "other ring degree",
+    names = {17002: "FFT64 vmp n<8", 17003: "NTT120 vmp n=1", 17004: "other ring degree",
              17005: "ill-formed subject used"}
     for z in sorted(st):
         notes.append(f"hazard zone {names.get(z, z)}: {st[z]}")
